@@ -403,6 +403,10 @@ def run(chk):
     chk.absorb(stats, kind="problem")
     chk.absorb(run_stream(__name__, "random", chk.tier, chk.seed, 480 if quick else 20000), kind="problem")
     chk.absorb(run_stream(__name__, "reserved", chk.tier, chk.seed, 160 if quick else 3000), kind="problem")
+    if not quick:
+        from ..runner import coverage_guided
+
+        coverage_guided(chk, __name__, "random", 420, procs=8, kind="problem")
     chk.coverage_extra["exhaustive_templates"] = exhaustive
     chk.coverage_extra["sampled_templates"] = sampled
     chk.coverage_extra["exhaustive"] = False
